@@ -429,7 +429,7 @@ def c11(ctx):
     ctx.validate_trace("trace")
     sessions(ctx)
     return finish(ctx, relevant={"plus-natural-order", "plus-natural-order-duplicate-position", "match-duplicate-position",
-                                 "verdict-duplicate-position", "table-Listed", "table-OnePosition", "table-OneShape",
+                                 "verdict-duplicate-position", "verdict", "match", "table-Listed", "table-OnePosition", "table-OneShape",
                                  "table-Ascending", "table-Complete", "table-Disjoint"},
                   rule="the shipped family table (one TLC state per family, six well-formedness clauses) + ordered pairs of ids/spellings of "
                        "every table family and natural family and cross-family pairs, expected answer from the NATURAL version order; each "
